@@ -34,8 +34,9 @@ Content(S)     == UNION {{g.bytes[i] : i \in DOMAIN g.bytes} : g \in S}
 
 TInit == seen = {} /\ pend = [g \in G |-> None] /\ mode = "strict" /\ l = 1 /\ HWInit
 
-Reset == /\ IsEvent("reset") /\ (\A g \in G : pend[g] = None)
-         /\ seen' = {} /\ mode' = Ev.mode /\ UNCHANGED pend
+\* a history may end with calls still in flight (gate paths are prefixes): reset forgets them
+Reset == /\ IsEvent("reset")
+         /\ seen' = {} /\ mode' = Ev.mode /\ pend' = [g \in G |-> None]
 
 SameKey(h, k) == pend[h] # None /\ pend[h].f.k = k
 Call == /\ IsEvent("call") /\ pend[Ev.g] = None
